@@ -117,7 +117,7 @@ func (x *exec) ev(e Expr, env *Env, hint types.Type) *Val {
 		// package-qualified object?
 		if id, ok := n.X.(*EId); ok {
 			if _, isVar := env.vars[id.Name]; !isVar && (env.cell == nil || env.cell(id.Name) == nil) {
-				if p := x.p.findPkg(env.pkg, id.Name); p != nil {
+				if p := x.findPkg(env.pkg, id.Name); p != nil {
 					obj := p.Scope().Lookup(n.Name)
 					if obj == nil {
 						fail("spec: %s.%s not found", id.Name, n.Name)
@@ -566,6 +566,15 @@ func (x *exec) evCall(n *ECall, env *Env, hint types.Type) *Val {
 			return x.ev(n.Args[0], &ne, hint)
 		case "setsum":
 			return x.setSum(n, env)
+		case "wrapu32", "wrapi64", "wrapu64", "wrapi32":
+			// explicit machine wrap-around in arith int specifications (identity in arith bv)
+			tm := map[string]types.Type{"wrapu32": types.Typ[types.Uint32], "wrapi64": types.Typ[types.Int64], "wrapu64": types.Typ[types.Uint64], "wrapi32": types.Typ[types.Int32]}
+			t := tm[id.Name]
+			v := x.ev(n.Args[0], env, t)
+			if x.c.Mode == ModeBV {
+				return v
+			}
+			return x.mkVal(x.wrapInt(x.term(v), t), t)
 		case "$key":
 			// $key(j): j-th key of the ghost iteration sequence of the map being ranged over
 			if env.seq == nil {
@@ -612,7 +621,7 @@ func (x *exec) evCall(n *ECall, env *Env, hint types.Type) *Val {
 		// pkg.Func(...) or pkg.Type(x)
 		if id, ok := sel.X.(*EId); ok {
 			if _, isVar := env.vars[id.Name]; !isVar && (env.cell == nil || env.cell(id.Name) == nil) {
-				if p := x.p.findPkg(env.pkg, id.Name); p != nil {
+				if p := x.findPkg(env.pkg, id.Name); p != nil {
 					obj := p.Scope().Lookup(sel.Name)
 					switch o := obj.(type) {
 					case *types.Func:
@@ -660,6 +669,10 @@ func (x *exec) specConvert(v *Val, to types.Type) *Val {
 			return x.mkVal(fmt.Sprintf("((_ to_fp 11 53) RNE %s)", x.term(v)), to)
 		}
 		return x.mkVal(fmt.Sprintf("((_ to_fp_unsigned 11 53) RNE %s)", x.term(v)), to)
+	case isFloat(from) && isInt(to) && x.c.Mode == ModeInt:
+		// same uninterpreted conversion the executor uses in arith int
+		x.c.Fun("f2i", []string{"(_ FloatingPoint 11 53)"}, "Int")
+		return x.mkVal(App("f2i", x.term(v)), to)
 	case isFloat(from) && isInt(to) && x.c.Mode == ModeBV:
 		bits, signed := x.c.bits(to)
 		if signed {
@@ -689,6 +702,19 @@ func (x *exec) seqOf(v *Val, sl *types.Slice, st *State) *seqView {
 func (x *exec) callPure(m *types.Func, recv *Val, args []Expr, env *Env) *Val {
 	sig := m.Type().(*types.Signature)
 	key := funcKey(m)
+	switch key {
+	case "math.Pow", "math.Log", "math.Exp", "math.Log2", "math.Log10":
+		// the same uninterpreted function the executor uses for these library calls
+		fn := "uf!" + key
+		var sorts, ts []string
+		for _, a := range args {
+			v := x.ev(a, env, types.Typ[types.Float64])
+			sorts = append(sorts, "(_ FloatingPoint 11 53)")
+			ts = append(ts, x.term(v))
+		}
+		x.c.Fun(fn, sorts, "(_ FloatingPoint 11 53)")
+		return x.mkVal(App(fn, ts...), types.Typ[types.Float64])
+	}
 	con := x.p.Contracts.ByKey[key]
 	if con == nil || !con.Pure {
 		fail("spec: %s needs a `pure` contract to be used in specifications", key)
